@@ -594,6 +594,21 @@ func (x *Exec) callFunc(st *State, call *ast.CallExpr, fn *types.Func, recv *Val
 	if vs, ok := x.libModel(st, call, fn, key, recv, args); ok {
 		return vs
 	}
+	// no reentrancy: a callee that locks a mutex of its receiver must not be called with that mutex held
+	if x.contract != nil && x.contract.Opts["own"] && len(x.inRes) == 0 && x.dry == 0 {
+		if selx, ok := unparen(call.Fun).(*ast.SelectorExpr); ok && fn.Type().(*types.Signature).Recv() != nil {
+			rtext := x.prog.text(selx.X)
+			for mu := range x.prog.acquiredOnReceiver(fn, 0) {
+				goal := "true"
+				if st.held[rtext+"."+mu] {
+					goal = "false"
+				}
+				x.counts["lock.reenter"]++
+				x.assertNamed(st, fmt.Sprintf("lock.reenter.%d", x.counts["lock.reenter"]), "lock", goal,
+					"no call of "+fn.Name()+", which locks "+rtext+"."+mu+", while this function holds it (sync mutexes are not reentrant: self-deadlock, or deadlock with a waiting writer)", x.posn(call.Pos()))
+			}
+		}
+	}
 	// extern contracts are local to the package whose code is being executed; where a package states its own
 	// (assumed) view of a function of another package, that view is the one its proofs rest on
 	c := x.prog.specs.Contracts[x.pkg.PkgPath+"::"+key]
